@@ -581,6 +581,8 @@ def gen_storage_case(rng, kind, size):
                     serial = rng.choice([max(alltids), cur(oid)[0] + 1, max(cur(oid)[0] - 1, 0), rng.choice(alltids)])
                 ops.append('check %d %d %d' % (w, oid, serial))
             elif r < 0.90:
+                if rng.random() < 0.25:
+                    ops.append('bystander')     # another storage instance of the process runs a 2PC now
                 ops.append('vote %d' % w)
                 state[w] = 'voted'
             elif r < 0.95:
